@@ -12,7 +12,7 @@ res={}
 for l in open(sys.argv[1]):
     try: e=json.loads(l)
     except Exception: continue
-    if e.get('Test') and e.get('Action') in ('pass','fail','skip') and '/' not in e['Test']:
+    if e.get('Test') and e.get('Action') in ('pass','fail','skip'):
         res[e['Package']+'::'+e['Test']]=e['Action']
 bad=[t for t in sorted(stable) if res.get(t)!='pass']
 print("stable tests: %d, passed in the full run: %d, to re-run individually: %d"%(len(stable), len(stable)-len(bad), len(bad)))
